@@ -300,7 +300,9 @@ fn lj2_case(g: &mut Sm) -> String {
     let common = if g.chance(0.5) {
         format!(" common={}:{}:{}:{}", fmt_f(g.range(0., 2. * PI)), fmt_f(g.range(-3., 3.)), fmt_f(g.range(-3., 3.)), g.below(2))
     } else { String::new() };
-    format!("mode=lj2 s1={} e1={} c1={} s2={} e2={} c2={} r={} th={}{}", fmt_f(s1), fmt_f(e1), fmt_fo(c1), fmt_f(s2), fmt_f(e2), fmt_fo(c2), fmt_f(r), fmt_f(g.range(0., 2. * PI)), common)
+    // (the same pair far from the origin: coordinates of 1e5 .. 1e9, as a library caller or a huge cell may have)
+    let far = if g.chance(0.12) { format!(" far={}", fmt_f(*g.pick(&[1e5, 1e6, 3e7, 1e8, 1e9]))) } else { String::new() };
+    format!("mode=lj2 s1={} e1={} c1={} s2={} e2={} c2={} r={} th={}{}{}", fmt_f(s1), fmt_f(e1), fmt_fo(c1), fmt_f(s2), fmt_f(e2), fmt_fo(c2), fmt_f(r), fmt_f(g.range(0., 2. * PI)), common, far)
 }
 
 /// C09 / C10: three variants of one state whose scores are equal, or a few ulps apart, or clearly different;
